@@ -25,6 +25,13 @@ def run_property(pid: str, repo: str, tier: str, seed: int, quiet: bool = False,
         mod.run(prog, ledger)
         return ledger.finish(), ledger, ""
     except AnalysisError as exc:
+        if any(o.status == "violation" for o in ledger.obligations):
+            # a construct was already shown to violate a rule before the recogniser gave up on a
+            # later part: the violation stands; the rest of the analysis is reported as incomplete
+            ledger.note(f"analysis incomplete after the reported violation(s): {exc}")
+            code = ledger.finish()
+            if code == 1:
+                return 1, ledger, ""
         return 2, ledger, f"{exc}"
     except Exception as exc:  # a crash of the checker is never a violation
         return 2, ledger, f"checker crashed: {exc!r}\n{traceback.format_exc()}"
